@@ -37,6 +37,9 @@ CHECKS = {
  'C02': dict(tech='TLA+ ideal-crypto decision model (PlonkProtocol.tla) checked by TLC; every behaviour replayed on real Setup/Prove/Verify of 7 curves',
              text='As C01 for PLONK: TLC enumerates shape x edit sequences over every proof component, claimed value, option and public input; each behaviour is replayed on the real PLONK code of every curve.',
              note='Fiat-Shamir/KZG binding are ideal rules; soundness outside the edit alphabet is a cryptographic assumption.', ref='6 C02'),
+ 'C12': dict(tech='TLA+ reference semantics and program generator for emulated arithmetic (EmulatedOps.tla) evaluated by TLC over a toy modulus; generated programs replayed on the real emulated.Field through the test engine and the real provers, with hint outputs perturbed',
+             text='TLC generates every one-instruction program and simulated 2-3 instruction programs over witness elements, minimal-limb constants and temporaries (Add, Sub, Neg, Mul, Sqr, Div, Inverse, Reduce, MulConst, Select, Mux, Lookup2, Sum, 340-term addition chain, IsZero) and evaluates them modulo 13 on 32 probes; each program runs on the real emulated.Field for a 13-modulus with 3-bit limbs and for 256-384 bit moduli: result equal to integer arithmetic mod q (test engine and Groth16/PLONK provers), off-by-one result rejected, division by zero unsatisfiable, every emulated hint output perturbed => prover fails.',
+             note='Hint tampering perturbs outputs by one (first and last output of each hint), not all hint outputs; the Schwartz-Zippel step of the deferred multiplication check is an ideal rule.', ref='6 C12'),
  'C13': dict(tech='TLA+ transcription of the range checker (RangeCheck.tla: optimalWidth, limb decomposition, accept predicate) checked exhaustively over a toy field by TLC; adversarial hint classes replayed on the real gadget through the real provers',
              text='TLC checks over F_47 (recomposition wraps) that the decomposition constraints accept v iff v < 2^bits for all widths/bases/values and emits width mixes x hint classes (out-of-range value, overflowing limb, shifted limbs, wrong multiplicity); each is run through the real Groth16/PLONK provers with the DecomposeHint and the multiplicity hint substituted and must fail (honest in-range must pass); the limb width and count used by the real gadget must equal the transcription; lookup tables are queried at every index, repeatedly, out of range and against wrong entries.',
              note='Schwartz-Zippel soundness of the log-derivative identity is an ideal rule; lookup results cannot be substituted (they come from a blueprint, not a hint), so wrong-entry cases assert a wrong expected value instead.', ref='6 C13'),
